@@ -121,11 +121,31 @@ theorem good_substr {as : List Value} {rt : Ty} (h : ImplArgsOK nfc (spec3 pStrD
 
 end
 
+theorem callTotal_mk' {spec : Spec} {T : Ty} {f : List Value → Res Value} (hr : spec.refine = none)
+    (hg : ∀ as rt, ImplArgsOK nfc spec as → staticTf T as = .ok rt → ImplGood rt (implOf f as rt)) :
+    CallTotal nfc (mk spec T f) := fun _ args hargs =>
+  call_total_of_good' spec (staticTf T) (implOf f) hr (fun as w _ => static_total T as w)
+    (fun as rt h ht => (hg as rt h ht).toPrime) args hargs
+
+theorem good_timeadd (L : StdNum.Lib) {as : List Value} {rt : Ty} (h : ImplArgsOK nfc (spec2n pStr pStr) as)
+    (ht : staticTf .string as = .ok rt) : ImplGood rt (implOf (StdNum.timeAddImpl L) as rt) := by
+  cases ht
+  obtain ⟨a, b, rfl, ha, hb⟩ := args_inv2 h
+  obtain ⟨s, rfl⟩ := str_arg' ha rfl rfl rfl rfl
+  obtain ⟨t, rfl⟩ := str_arg' hb rfl rfl rfl rfl
+  simp only [implOf, StdNum.timeAddImpl, StdNum.arg, List.getElem?_cons_zero, List.getElem?_cons_succ,
+    Res.bind_ok, asString_strVal']
+  split
+  · exact implGood_err _ _
+  · split
+    · exact implGood_err _ _
+    · exact implGood_strv _ _
+
 /-- **every function of `D11b.glueTable` is total, for every library** -/
 theorem callTotal_glueTable : ∀ e ∈ glueTable, ∀ L : StdNum.Lib, CallTotal nfc (e.2.2.2 L) := by
   intro e he L
   simp only [glueTable, List.mem_cons, List.not_mem_nil, or_false] at he
-  rcases he with rfl | rfl | rfl | rfl | rfl | rfl | rfl | rfl | rfl | rfl | rfl | rfl | rfl | rfl
+  rcases he with rfl | rfl | rfl | rfl | rfl | rfl | rfl | rfl | rfl | rfl | rfl | rfl | rfl | rfl | rfl
   · exact callTotal_mk rfl fun _ _ => good_str1 L (.inr rfl) L.toUpper (fun _ => rfl)
   · exact callTotal_mk rfl fun _ _ => good_str1 L (.inr rfl) L.toLower (fun _ => rfl)
   · exact callTotal_mk rfl fun _ _ => good_str1 L (.inr rfl)
@@ -142,12 +162,13 @@ theorem callTotal_glueTable : ∀ e ∈ glueTable, ∀ L : StdNum.Lib, CallTotal
   · exact callTotal_mk rfl fun _ _ => good_split L
   · exact callTotal_mk rfl fun _ _ => good_indent L
   · exact callTotal_mk rfl fun _ _ => good_substr L
+  · exact callTotal_mk' rfl fun _ _ => good_timeadd L
 
 /-- their `Type` callback is the constant one of the static type the SOURCE declares -/
 theorem glueTable_static : ∀ e ∈ glueTable, ∃ T, Std.staticTy? e.2.2.1 = some T ∧ ∀ L E as, (e.2.2.2 L).tf E as = .ok T := by
   intro e he
   simp only [glueTable, List.mem_cons, List.not_mem_nil, or_false] at he
-  rcases he with rfl | rfl | rfl | rfl | rfl | rfl | rfl | rfl | rfl | rfl | rfl | rfl | rfl | rfl <;>
+  rcases he with rfl | rfl | rfl | rfl | rfl | rfl | rfl | rfl | rfl | rfl | rfl | rfl | rfl | rfl | rfl <;>
     exact ⟨_, rfl, fun _ _ _ => rfl⟩
 
 
